@@ -3,6 +3,7 @@ package main
 import (
 	"encoding/json"
 	"fmt"
+	"github.com/cosmos/cosmos-sdk/types/query"
 	"math/rand"
 	"time"
 
@@ -137,6 +138,37 @@ func (f *notifFam) Project() M {
 		}
 		if len(res.Notifications) != len(k.GetAllNotificationsByAddress(f.ctx, addr)) {
 			list = append(list, M{"from": "!query-getter-mismatch", "time": int64(-1), "c": ""})
+		}
+		// the same inbox read page by page (2 entries per page) must give the same entries in the same order,
+		// and every listed entry must be retrievable by the single-notification query
+		var paged []ntypes.Notification
+		for off := uint64(0); off <= uint64(len(res.Notifications))+2; off += 2 {
+			pr, err := k.AllNotificationsByAddress(sdk.WrapSDKContext(f.ctx), &ntypes.QueryAllNotificationsByAddress{To: addr, Pagination: &query.PageRequest{Offset: off, Limit: 2}})
+			if err != nil {
+				list = append(list, M{"from": "!paged-query-error", "time": int64(-1), "c": ""})
+				break
+			}
+			paged = append(paged, pr.Notifications...)
+		}
+		if len(paged) != len(res.Notifications) {
+			list = append(list, M{"from": "!paging-mismatch", "time": int64(-1), "c": ""})
+		} else {
+			for i := range paged {
+				if paged[i].From != res.Notifications[i].From || paged[i].Time != res.Notifications[i].Time || paged[i].Contents != res.Notifications[i].Contents {
+					list = append(list, M{"from": "!paging-mismatch", "time": int64(-1), "c": ""})
+					break
+				}
+			}
+		}
+		for _, n := range res.Notifications {
+			if n.Time == 0 {
+				continue // block markers decode as entries with time 0 (known finding); they have no single-entry form
+			}
+			one, err := k.Notification(sdk.WrapSDKContext(f.ctx), &ntypes.QueryNotification{To: n.To, From: n.From, Time: n.Time})
+			if err != nil || one.Notification.Contents != n.Contents {
+				list = append(list, M{"from": "!single-query-mismatch", "time": int64(-1), "c": ""})
+				break
+			}
 		}
 		for _, n := range res.Notifications {
 			c := n.Contents
